@@ -4,6 +4,7 @@
 //! note: lightning-block-sync: check_builds_on refuses headers that do not connect; find_difference_from_header returns a common ancestor of both tips and a parent-linked chain of new blocks
 //! trusted: BlockHash is an opaque identity (u64 stand-in; equality is identity, hash collisions excluded); Work / Target / Header are stubs whose ==, +, <, > follow the PartialEqSpecImpl/AddSpecImpl/PartialOrdSpecImpl models declared here; Header::work()/target() and Target::*_transition_threshold* are external_body with unconstrained results; BlockSourceError::persistent is an external_body constructor
 //! trusted: HeaderCache::look_up returns a well-formed header of the requested hash (cache invariant, assumed); the Poll implementation is instantiated (R5) by a stub Poller whose look_up_previous_header returns a header that passed check_builds_on against `header` (that is what ChainPoller does)
+//! trusted: R15 (deep slice): find_difference_from_best_block: the height distance the filter_map closure gives the idx-th entry of BlockLocator::previous_blocks, verbatim; the lookups themselves (cache, poller) are not sliced
 //! trusted: SpvClient::poll_best_tip is extracted whole; the stub Poller's poll_chain_tip carries the contract proved for ChainPoller::poll_chain_tip in this unit (better = strictly more work, hash different from the known tip's header) plus, assumed as for look_up_previous_header, that a validated header is a block of the chain model (wf)
 //! trusted: listener part: ChainNotifier is instantiated (R5) as Notifier { header_cache, chain_listener: &mut Listener } (the real field is a shared reference to a listener with interior state); the Listener stub carries the ghost field `tip` and the trace preconditions; HeaderCache::{blocks_disconnected, block_connected} external_body (no effect on the listener); Poller::fetch_block returns a block whose hash is the requested header's (ChainPoller validates it); `drain(..).rev()` rewritten into pop() (R6); find_difference_from_header restated as an external_body callee contract in the Notifier impl (it is verified, same text, in the ChainNotifier impl above)
 //! trusted: poller part: `fn f(..) -> impl Future<Output = T> + Send + 'a { async move { B } }` is written `async fn f(..) -> T { B }` (R5, same body); ChainPoller<B, T> is instantiated with a stub block source whose get_best_block / get_header return anything (any source); Header::validate_pow / block_hash are external_body returning the uninterpreted hash_of(header); `.map_err(BlockSourceError::persistent)` gets an explicit closure (R8); Validate::T is spelled out
@@ -489,6 +490,22 @@ impl ChainPoller {
     
 //@end
 }
+// ---- find_difference_from_best_block: at which height the k-th remembered ancestor of a stale listener tip is looked up ----
+//@extract lightning-block-sync/src/lib.rs :: impl ChainNotifier :: fn find_difference_from_best_block
+//@slice R15
+    if let Some(block_hash) = hash_opt { Some(($d:seq, block_hash)) } else { None }
+//@with
+    fn height_distance_of_remembered_ancestor(idx: usize) -> u32 { $d }
+//@ret r
+//@requires
+    idx < 0x1000_0000,
+//@ensures P C20 the-k-th-remembered-ancestor-of-a-listeners-last-block-is-looked-up-k-plus-one-blocks-below-it
+    r as int == idx + 1,
+//@mutant ancestors_looked_up_one_block_too_high
+    Some((idx as u32 + 1, block_hash))
+//@with
+    Some((idx as u32, block_hash))
+//@end
 // ---- init::synchronize_listeners: start-up synchronisation of several listeners ---------------------------
 pub mod start_up {
 use vstd::prelude::*;
